@@ -199,11 +199,116 @@ func solveOne(o *Oblig, t *Trans, opt SolveOpts) *Result {
 	}
 	if want == "unsat" {
 		r.Verdict = "undischarged"
+		// Path splitting: the goal has the form (=> REACH G) and REACH is defined as a disjunction of edge
+		// predicates (a merge point with many incoming paths). Proving G under each disjunct separately is
+		// sound (REACH implies one of them) and much easier for the solvers than the case split.
+		if n, ok := splitDischarge(withModel, file, opt, 0); ok {
+			r.Verdict = "discharged"
+			r.Solver = fmt.Sprintf("split(%d)", n)
+			r.Tried = append(r.Tried, fmt.Sprintf("path-split:%d sub-queries unsat", n))
+		} else if n, ok := caseDischarge(withModel, file, opt, t.splitTerms); ok {
+			r.Verdict = "discharged"
+			r.Solver = fmt.Sprintf("cases(%d)", n)
+			r.Tried = append(r.Tried, fmt.Sprintf("case-split:%d sub-queries unsat", n))
+		}
 	} else {
 		// no solver decided the cover within the time limit: not evidence of vacuity
 		r.Verdict = "cover-unknown"
 	}
 	return r
+}
+
+// splitDischarge tries to prove a query of the form ... (assert (not (=> REACH G))) by cases over the disjuncts
+// of REACH's definition. Returns the number of sub-queries proved and whether all of them were.
+func splitDischarge(query, file string, opt SolveOpts, depth int) (int, bool) {
+	i := strings.LastIndex(query, "(assert (not (=> ")
+	if i < 0 {
+		return 0, false
+	}
+	rest := query[i+len("(assert (not (=> "):]
+	j := strings.IndexAny(rest, " )")
+	if j <= 0 {
+		return 0, false
+	}
+	sym := rest[:j]
+	def := "(define-fun " + sym + " () Bool (or "
+	k := strings.Index(query, def)
+	if k < 0 {
+		return 0, false
+	}
+	line := query[k+len(def):]
+	if e := strings.Index(line, "\n"); e >= 0 {
+		line = line[:e]
+	}
+	line = strings.TrimSuffix(strings.TrimSpace(line), "))")
+	parts := strings.Fields(line)
+	if len(parts) < 2 {
+		return 0, false
+	}
+	for _, p := range parts {
+		if strings.ContainsAny(p, "()") {
+			return 0, false // only plain symbols
+		}
+	}
+	total := 0
+	for n, p := range parts {
+		sub := query[:i] + "(assert " + p + ")\n" + query[i:]
+		sfile := fmt.Sprintf("%s.split%d_%d.smt2", strings.TrimSuffix(file, ".smt2"), depth, n)
+		os.WriteFile(sfile, []byte(sub), 0o644)
+		v, _, _, _ := raceSolvers([]string{"z3-new", "z3", "cvc5"}, sfile, opt.FullSec)
+		if v == "unsat" {
+			total++
+			continue
+		}
+		if v == "sat" || depth >= 1 {
+			return total, false
+		}
+		// the disjunct may itself be a merge point: one more level, on the definition of p
+		inner := strings.Replace(sub, "(assert (not (=> "+sym+" ", "(assert (not (=> "+p+" ", 1)
+		m, ok := splitDischarge(inner, sfile, opt, depth+1)
+		if !ok {
+			return total, false
+		}
+		total += m
+	}
+	return total, true
+}
+
+// caseDischarge proves a query by exhaustive case distinction over the Boolean hint terms of the contract
+// ("extra split"): every sign combination is a sub-query; all must be unsat. Sound because the cases are exhaustive.
+func caseDischarge(query, file string, opt SolveOpts, terms []string) (int, bool) {
+	if len(terms) == 0 || len(terms) > 4 {
+		return 0, false
+	}
+	i := strings.LastIndex(query, "(assert (not ")
+	if i < 0 {
+		return 0, false
+	}
+	total := 0
+	for mask := 0; mask < 1<<len(terms); mask++ {
+		var b strings.Builder
+		for j, tm := range terms {
+			if mask&(1<<j) != 0 {
+				b.WriteString("(assert " + tm + ")\n")
+			} else {
+				b.WriteString("(assert (not " + tm + "))\n")
+			}
+		}
+		sub := query[:i] + b.String() + query[i:]
+		sfile := fmt.Sprintf("%s.case%d.smt2", strings.TrimSuffix(file, ".smt2"), mask)
+		os.WriteFile(sfile, []byte(sub), 0o644)
+		v, _, _, _ := raceSolvers([]string{"z3-new", "z3", "cvc5"}, sfile, opt.FullSec)
+		if v != "unsat" {
+			// a merge point inside the case: path-split it
+			if n, ok := splitDischarge(sub, sfile, opt, 0); v != "sat" && ok {
+				total += n
+				continue
+			}
+			return total, false
+		}
+		total++
+	}
+	return total, true
 }
 
 // raceSolvers runs the solvers concurrently and returns the first sat/unsat answer.
